@@ -12,9 +12,11 @@ TECHNIQUE = ("bounded symbolic execution of Ombott.__call__ (CrossHair+z3) with 
              "request data and handler writes are solver variables; oracle = each request served alone")
 LEVEL_TEXT = ("HARD BOUND. CPython thread interleavings at statement granularity cannot be made solver variables with the "
               "installed tools; what is decided: with threading.local replaced by SimLocal (one namespace per object and "
-              "simulated thread), thread T0's request is preempted at a solver-chosen user-callback boundary (before-hook, "
+              "simulated thread), thread T0's request is preempted at a solver-chosen boundary: a user callback (before-hook, "
               "handler entry, after the handler's writes, between two items of a lazily produced body while the server "
-              "iterates it, after-hook) and thread T1 (which may itself be preempted by T2) serves a complete request on the "
+              "iterates it, after-hook) or the entry of a framework-internal call (RadiRouter.resolve, Route.__getitem__, "
+              "Ombott._cast, HTTPResponse.apply, BaseResponse.headerlist, error_render.render - wrapped in the checking "
+              "process) and thread T1 (which may itself be preempted by T2) serves a complete request on the "
               "SAME application before T0 resumes; request data and handler writes of all threads are symbolic. z3 decides "
               "every branch; inside the bound every response equals the one the same request produces alone and each handler "
               "sees only its own request/response. This catches per-request state that is not thread-local; it says nothing "
@@ -27,7 +29,9 @@ FUNCTIONS = [
     "ombott.request_pkg.request:BaseRequest.__init__", "ombott.response:BaseResponse.__init__",
     "ombott.response:BaseResponse.set_cookie", "ombott.response:HTTPResponse.apply",
 ]
-STUBS = ["SimLocal/SimThreads for `threading` inside ombott.common_helpers (every application of this harness)"]
+STUBS = ["SimLocal/SimThreads for `threading` inside ombott.common_helpers (every application of this harness)",
+         "call-boundary wrappers around RadiRouter.resolve, Route.__getitem__, Ombott._cast, HTTPResponse.apply, "
+         "BaseResponse.headerlist, error_render.render: call the scenario's scheduler, then the original (no other change)"]
 ASSUMPTIONS = ["threading.local gives each thread its own attribute namespace per local object (the stub's contract)"]
 OUTSIDE = ["preemption between two framework statements (not reachable by this technique)", "non-LIFO schedules",
            "more than one preemption per thread, more than 3 threads", "request text beyond 1 letter/digit"]
@@ -36,7 +40,40 @@ BUDGET_S = {"quick": 240, "thorough": 1000}
 stubs.install_sim_threads()
 ombott.error_render.render(HTTPError(500, "x"), "http://h/", False)
 
-POINTS = ["none", "before_hook", "handler_entry", "after_writes", "between_items", "after_hook"]
+POINTS = ["none", "before_hook", "handler_entry", "after_writes", "between_items", "after_hook",
+          # framework-internal call boundaries (entry of the wrapped functions below)
+          "router_resolve", "route_lookup", "cast", "apply", "headerlist", "render"]
+
+# ---- preemption points at framework-internal CALL boundaries: the functions are wrapped in this process only; a wrapper
+# ---- calls the scheduler of the running scenario and then the original
+CUR = [None]
+
+
+def _point(point, orig):
+    def w(*a, **kw):
+        s = CUR[0]
+        if s is not None:
+            s(point)
+        return orig(*a, **kw)
+    return w
+
+
+def _install_points():
+    from ombott.router.radirouter import RadiRouter, Route
+    from ombott.response import BaseResponse
+    from ombott import error_render
+    if getattr(RadiRouter.resolve, "_c08", False):
+        return
+    RadiRouter.resolve = _point("router_resolve", RadiRouter.resolve)
+    RadiRouter.resolve._c08 = True
+    Route.__getitem__ = _point("route_lookup", Route.__getitem__)
+    ombott.Ombott._cast = _point("cast", ombott.Ombott._cast)
+    HTTPResponse.apply = _point("apply", HTTPResponse.apply)
+    BaseResponse.headerlist = property(_point("headerlist", BaseResponse.headerlist.fget))
+    error_render.render = _point("render", error_render.render)
+
+
+_install_points()
 KINDS = ["gen", "str", "raise", "crash", "404", "badbody"]
 STATUS = [200, 404]
 
@@ -167,6 +204,7 @@ class Sched:
 def alone(kind, seg, qs, cookie, write):
     stubs.SimThreads.cur = "T0"
     s = Sched({}, {}, {"T0": write})
+    CUR[0] = s
     app = build_app(s)
     s.app = app
     return serve(app, env_for(kind, seg, qs, cookie)), [x[1:] for x in s.seen]
@@ -200,6 +238,7 @@ def _make(k0, k1, k2):
         stubs.SimThreads.cur = "T0"
         plan = {"T0": POINTS[p0], "T1": POINTS[p1]}
         s = Sched(plan, {t: (lambda t=t: env_for(*reqs[t])) for t in reqs if t != "T0"}, writes)
+        CUR[0] = s
         app = build_app(s)
         s.app = app
         s.results["T0"] = serve(app, env_for(*reqs["T0"]))
@@ -221,7 +260,7 @@ def queries(tier):
     T = tier == "thorough"
     out = []
     combos = [("gen", "gen", None), ("gen", "str", None), ("str", "raise", None), ("gen", "crash", None), ("raise", "404", None),
-              ("badbody", "badbody", None), ("gen", "gen", "str")]
+              ("badbody", "badbody", None), ("str", "badbody", None), ("gen", "gen", "str")]
     if T:
         combos += [(a, b, None) for a in KINDS for b in KINDS if (a, b, None) not in combos]
         combos += [("gen", "raise", "crash"), ("str", "gen", "gen"), ("crash", "gen", "404")]
@@ -230,7 +269,7 @@ def queries(tier):
                      "T0 serves a %r request, preempted at a solver-chosen point of %r by T1 serving a %r request%s on the same "
                      "application; path segment of both (1 letter/digit), header value written (<= 1), T0's status from %r "
                      "symbolic (3-thread query: preemption points of T0 and T1 and T0's segment)" % (k0, POINTS, k1, (" (itself preempted by T2 serving %r)" % k2) if k2 else "", STATUS),
-                     timeout=400 if not T else 900, per_path_timeout=60, expect_cover=["preempted"], family="threads"))
+                     timeout=700 if not T else 1200, per_path_timeout=60, expect_cover=["preempted"], family="threads"))
     return out
 
 
